@@ -36,9 +36,9 @@ class Prop(common.PropertyCheck):
     def gen_cases(self):
         rng = self.rng
         for _ in range(self.budget(260, 4000)):
-            yield {'N': rng.choice([1, 2, 3, 7, 40, 400]), 'D': rng.randrange(2, 5), 'data': rng.choice(['ties', 'const', 'spread', 'spread', 'modal']),
-                   'cont': rng.choice(['array_int', 'array_float', 'sample', 'sample_rfi', 'sample_mef', 'sample_reordered']),
-                   'chform': rng.choice(['none', 'pos', 'name', 'list', 'list1']), 'seed': rng.randrange(1 << 30)}
+            yield {'N': rng.choice([1, 2, 3, 7, 40, 400]), 'D': rng.randrange(2, 7), 'data': rng.choice(['ties', 'const', 'spread', 'spread', 'modal', 'bright']),
+                   'cont': rng.choice(['array_int', 'array_float', 'array_narrow', 'sample', 'sample', 'sample_rfi', 'sample_mef', 'sample_reordered']),
+                   'chform': rng.choice(['none', 'pos', 'name', 'list', 'list1', 'perm', 'perm', 'zigzag']), 'seed': rng.randrange(1 << 30)}
 
     def build(self, case):
         r = np.random.RandomState(case['seed'] % (1 << 31))
@@ -53,15 +53,22 @@ class Prop(common.PropertyCheck):
             # unique mode equal to the largest value, leading the runner-up by exactly one event
             if N >= 7:
                 ev[:4, 0] = 1001; ev[4:7, 0] = 5
+        elif kind == 'bright':
+            # a 16-bit instrument with a bright channel: central values above half of the container's maximum
+            ev = r.randint(40000, 65535, size=(N, D))
         else:
             ev = r.randint(1, 1023, size=(N, D))
+        top = 65536 if kind == 'bright' else 1024
         cont = case['cont']
         names = None
         if cont.startswith('array'):
-            d = ev.astype(np.int64) if cont == 'array_int' else ev.astype(np.float64) + r.rand(N, D) * (0 if kind in ('ties', 'const', 'modal') else 1)
+            if cont == 'array_narrow':
+                d = ev.astype(np.uint16) if kind == 'bright' or r.rand() < 0.5 else (ev // 8).astype(np.uint8) if r.rand() < 0.5 else (ev * 30).astype(np.int16)
+            else:
+                d = ev.astype(np.int64) if cont == 'array_int' else ev.astype(np.float64) + r.rand(N, D) * (0 if kind in ('ties', 'const', 'modal', 'bright') else 1)
         else:
-            spec = {'version': 'FCS3.0', 'delim': '/', 'datatype': 'I', 'byteord': '1,2,3,4', 'widths': [16] * D, 'ranges': [1024] * D,
-                    'events': [[int(min(v, 1023)) for v in row] for row in ev], 'names': ['FSC-H', 'FL1-H', 'FL2-H', 'FL3-H'][:D],
+            spec = {'version': 'FCS3.0', 'delim': '/', 'datatype': 'I', 'byteord': '1,2,3,4', 'widths': [16] * D, 'ranges': [top] * D,
+                    'events': [[int(min(v, top - 1)) for v in row] for row in ev], 'names': ['FSC-H', 'FL1-H', 'FL2-H', 'FL3-H', 'FL4-H', 'Time'][:D],
                     'pne': {str(i + 1): ('4,1' if i % 2 else '0,0') for i in range(D)}}
             d, _ = samples.load(spec, name='c12.fcs')
             names = list(d.channels)
@@ -89,6 +96,16 @@ class Prop(common.PropertyCheck):
             ch, cols = (names[1] if names else 1), [1]
         elif chf == 'list':
             ch, cols = ([names[D - 1], 0] if names else [D - 1, 0]), [D - 1, 0]
+        elif chf in ('perm', 'zigzag'):
+            import random
+            rr = random.Random(case['seed'])
+            if chf == 'zigzag' and D >= 4:
+                # ends len-1 apart, interior not the increasing run
+                cols = rr.choice([[0, D - 1, 2], [0, 2, 1, 3], [1, D - 1, 0, D - 2][:3] if D >= 5 else [0, 2, 1, 3], [D - 3, D - 1, D - 4, D - 2][::-1]])
+                cols = [c for c in cols if 0 <= c < D]
+            else:
+                cols = rr.sample(range(D), rr.randrange(1, D + 1))
+            ch = [names[c] if (names and rr.random() < 0.6) else c for c in cols]
         else:
             ch, cols = [names[0] if names else 0], [0]
         scalar = chf in ('pos', 'name')
